@@ -300,16 +300,14 @@ func (s *Service) UnmarshalJSON(data []byte) error {
 	if err != nil {
 		return err
 	}
-	s.active = NewLoadBalancer(activeTargets)
-	s.active.MarkAllHealthy()
+	s.active = NewHealthyLoadBalancer(activeTargets)
 
 	if len(ms.RolloutTargets) > 0 {
 		rolloutTargets, err := NewTargetList(ms.RolloutTargets, ms.TargetOptions)
 		if err != nil {
 			return err
 		}
-		s.rollout = NewLoadBalancer(rolloutTargets)
-		s.rollout.MarkAllHealthy()
+		s.rollout = NewHealthyLoadBalancer(rolloutTargets)
 	}
 
 	return s.initialize()
